@@ -71,6 +71,7 @@ def _kinks_many(cases):
         val = np.asarray(jax.vmap(f)(X, XP, FP))
         dx = np.asarray(jax.vmap(jax.grad(f, argnums=0))(X, XP, FP))
         dfp = np.asarray(jax.vmap(jax.grad(f, argnums=2))(X, XP, FP))
+        dxp = np.asarray(jax.vmap(jax.grad(f, argnums=1))(X, XP, FP))
         _, jv = jax.vmap(lambda x, xp, fp: jax.jvp(lambda t: f(t, xp, fp), (x,), (jnp.ones_like(x),)))(X, XP, FP)
         jv = np.asarray(jv)
         for i, c in enumerate(cs):
@@ -89,6 +90,11 @@ def _kinks_many(cases):
               bad(c, f'kink:{nm}:{what}:not_finite', f'd/dx = {d!r} at x = {c["cfg"]["q2"] / 2}')
             elif not (lo - 1e-12 * (1 + abs(lo)) <= d <= hi + 1e-12 * (1 + abs(hi))):
               bad(c, f'kink:{nm}:{what}:outside_interval', f'd/dx = {d!r} at x = {c["cfg"]["q2"] / 2}, admissible [{lo}, {hi}]')
+          if r['dxp']:
+            n_cmp += 1
+            dn = np.array([fl(q) for q in r['dxp']])
+            if not np.all(np.isfinite(dxp[i])) or not np.all(np.abs(dxp[i] - dn) <= 1e-12 * (1 + np.abs(dn))):
+              bad(c, f'kink:{nm}:node_derivative', f'd/dxp = {dxp[i].tolist()}, spec {dn.tolist()} (query {c["cfg"]["q2"] / 2})')
           w = np.array([fl(q) for q in r['w']])
           if not np.all(np.isfinite(dfp[i])) or not np.all(np.abs(dfp[i] - w) <= 16 * EPS * (1 + np.abs(w))):
             bad(c, f'kink:{nm}:data_weights', f'd/dfp = {dfp[i].tolist()}, spec weights {w.tolist()}')
